@@ -11,7 +11,7 @@ from ref import pkgwriter, selref
 B4 = ['B1', 'B2', 'B3', 'B5']
 
 
-def build(d, tag, fmt, n_models, perm=None, n_cols=2, nan_col=False, seed=0, mode='2d', text_col=False, par_gz=False):
+def build(d, tag, fmt, n_models, perm=None, n_cols=2, nan_col=False, seed=0, mode='2d', text_col=False, par_gz=False, name_pos=0):
     """Package whose convolved files and parameter table are both in `perm` order.  Returns (model_dir, info dict)."""
     names = ['pm_%s' % 'kcxaqfzb'[i] for i in range(n_models)]
     perm = list(range(n_models)) if perm is None else list(perm)
@@ -29,7 +29,7 @@ def build(d, tag, fmt, n_models, perm=None, n_cols=2, nan_col=False, seed=0, mod
     pcols = {k: v[perm] for k, v in cols.items()}
     if text_col:
         pcols['DUST'] = np.array(['dust_%d' % i for i in perm])
-    pkgwriter.write_parameters(md, order_names, pcols, gz=par_gz)
+    pkgwriter.write_parameters(md, order_names, pcols, gz=par_gz, name_pos=name_pos)
     if apdep:
         ap, t = fc.grid3d(seed * 10 + 11, n_models=n_models, n_ap=3, bands=B4)
         for ib, b in enumerate(B4):
@@ -51,8 +51,11 @@ def build(d, tag, fmt, n_models, perm=None, n_cols=2, nan_col=False, seed=0, mod
         else:
             val = grid[perm][:, None, :][:, :, order]
             pkgwriter.write_cube(md, order_names, wav, val, unc=val * 0.01)
+    file_columns = ['MODEL_NAME'] + list(pcols)
+    if name_pos:
+        file_columns.insert(min(name_pos, len(file_columns) - 1), file_columns.pop(0))
     pardict = {names[m]: [cols['PAR%d' % (c + 1)][m] for c in range(n_cols)] for m in range(n_models)}
-    return md, {'names': names, 'order_names': order_names, 'pardict': pardict, 'colnames': ['PAR%d' % (c + 1) for c in range(n_cols)], 'grid': grid, 'mode': mode}
+    return md, {'file_columns': file_columns, 'names': names, 'order_names': order_names, 'pardict': pardict, 'colnames': ['PAR%d' % (c + 1) for c in range(n_cols)], 'grid': grid, 'mode': mode}
 
 
 SRC_FLAGS = [(1, 1, 1, 1), (1, 4, 3, 1), (1, 1, 0, 9), (4, 1, 2, 1), (1, 1, 1, 3)]
@@ -133,6 +136,11 @@ def parse_write_parameters(path):
         out.append({'source': name, 'n_data': nd, 'n_fits': nf, 'rows': rows})
         i += 1 + nf
     return header, out
+
+
+def ranges_header(path):
+    """names in the first header line of a write_parameter_ranges file (each centred in 32 characters)"""
+    return open(path).read().splitlines()[0].split()
 
 
 def parse_ranges(path):
